@@ -15,6 +15,8 @@ use std::sync::{Arc, Mutex};
 
 #[derive(Clone, Debug, PartialEq)]
 pub enum Call {
+  /// next(v) during which observer `.1`'s callback subscribes the new observer `.2`
+  NextNested(i64, usize, usize),
   Sub(usize),
   Unsub(usize),
   Next(i64),
@@ -24,6 +26,7 @@ pub enum Call {
 fn show(h: &[Call]) -> String {
   h.iter()
     .map(|c| match c {
+      Call::NextNested(v, o, i) => format!("next({}) [observer {}'s callback subscribes observer {}]", v, o, i),
       Call::Sub(i) => format!("subscribe_{}", i),
       Call::Unsub(i) => format!("unsubscribe_{}", i),
       Call::Next(v) => format!("next({})", v),
@@ -68,6 +71,18 @@ pub fn histories(max_len: usize, max_obs: usize) -> Vec<Vec<Call>> {
         rec(cur, n_sub, unsubbed, false, max_len, max_obs, out);
         cur.pop();
       }
+      // a subscriber joins from inside another observer's callback, i.e. while the item is being delivered
+      if n_sub < max_obs {
+        for o in 0..n_sub {
+          if unsubbed[o] == 0 {
+            cur.push(Call::NextNested(1, o, n_sub));
+            unsubbed.push(0);
+            rec(cur, n_sub + 1, unsubbed, false, max_len, max_obs, out);
+            unsubbed.pop();
+            cur.pop();
+          }
+        }
+      }
       for t in [Call::Error, Call::Complete] {
         cur.push(t);
         rec(cur, n_sub, unsubbed, true, max_len, max_obs, out);
@@ -91,7 +106,7 @@ enum Exp {
 
 /// reference: expected events per observer per step, live-observer count per step
 fn reference(kind: SubjKind, h: &[Call]) -> (Vec<Vec<Exp>>, Vec<Option<usize>>, u64) {
-  let n_obs = h.iter().filter(|c| matches!(c, Call::Sub(_))).count();
+  let n_obs = h.iter().filter(|c| matches!(c, Call::Sub(_) | Call::NextNested(..))).count();
   let mut live: Vec<usize> = vec![];
   let mut items: Vec<i64> = vec![];
   let mut current: i64 = 0; // BehaviorSubject::new(0)
@@ -130,6 +145,34 @@ fn reference(kind: SubjKind, h: &[Call]) -> (Vec<Vec<Exp>>, Vec<Option<usize>>, 
         }
       },
       Call::Unsub(i) => live.retain(|x| x != i),
+      Call::NextNested(v, outer, inner) => {
+        items.push(*v);
+        current = *v;
+        last_pushed = Some(*v);
+        for o in &live {
+          if kind == SubjKind::Async {
+            seen[*o] = Some(*v);
+          } else {
+            exp[*o] = Exp::Exactly(vec![Ev::n(*v)]);
+          }
+        }
+        // `inner` joins while v is being delivered (only if `outer` is a live observer, else nobody calls it)
+        if live.contains(outer) && (kind != SubjKind::Async) {
+          match kind {
+            // every item pushed so far - including v - exactly once, in order
+            SubjKind::Replay => exp[*inner] = Exp::Exactly(items.iter().map(|x| Ev::n(*x)).collect()),
+            // the current value, once
+            SubjKind::Behavior => exp[*inner] = Exp::Exactly(vec![Ev::n(*v)]),
+            // whether the item being delivered also reaches the joiner is not fixed
+            _ => {
+              exp[*inner] = Exp::OneOf(vec![vec![], vec![Ev::n(*v)]]);
+              permissive += 1;
+            }
+          }
+          live.push(*inner);
+        }
+        // AsyncSubject: observer callbacks only run at completion, so nobody is called during next(v)
+      }
       Call::Next(v) => {
         items.push(*v);
         current = *v;
@@ -182,30 +225,64 @@ struct RealOut {
 }
 
 fn run_real(kind: SubjKind, via_map: bool, h: &[Call]) -> RealOut {
-  let n_obs = h.iter().filter(|c| matches!(c, Call::Sub(_))).count();
+  let n_obs = h.iter().filter(|c| matches!(c, Call::Sub(_) | Call::NextNested(..))).count();
   let log: Arc<Mutex<Vec<(usize, usize, Ev)>>> = Arc::new(Mutex::new(vec![]));
   let step = Arc::new(AtomicUsize::new(0));
   let counts = Arc::new(Mutex::new(vec![]));
   set_monitor_mode(true);
   let r = catch_unwind(AssertUnwindSafe(|| {
     let sbj = AnySubject::new(kind);
-    let mut subs: Vec<Option<Subscription<'static>>> = vec![None; n_obs];
+    let subs: Arc<Mutex<Vec<Option<Subscription<'static>>>>> = Arc::new(Mutex::new(vec![None; n_obs]));
+    // armed by NextNested: (observer whose callback subscribes, the new observer)
+    let armed: Arc<Mutex<Option<(usize, usize)>>> = Arc::new(Mutex::new(None));
+    // subscribes observer i; its own next-callback may in turn subscribe another one
+    fn subscribe_obs(
+      i: usize,
+      sbj: &AnySubject,
+      via_map: bool,
+      log: &Arc<Mutex<Vec<(usize, usize, Ev)>>>,
+      step: &Arc<AtomicUsize>,
+      subs: &Arc<Mutex<Vec<Option<Subscription<'static>>>>>,
+      armed: &Arc<Mutex<Option<(usize, usize)>>>,
+    ) {
+      let o = if via_map { sbj.observable().map(|x| x) } else { sbj.observable() };
+      let (l1, l2, l3) = (log.clone(), log.clone(), log.clone());
+      let (s1, s2, s3) = (step.clone(), step.clone(), step.clone());
+      let (sbj2, log2, step2, subs2, armed2) = (sbj.clone(), log.clone(), step.clone(), subs.clone(), armed.clone());
+      let s = o.subscribe(
+        move |x| {
+          l1.lock().unwrap().push((s1.load(Ordering::Relaxed), i, Ev::n(x)));
+          let fire = {
+            let mut a = armed2.lock().unwrap();
+            match *a {
+              Some((outer, inner)) if outer == i => {
+                *a = None;
+                Some(inner)
+              }
+              _ => None,
+            }
+          };
+          if let Some(inner) = fire {
+            subscribe_obs(inner, &sbj2, via_map, &log2, &step2, &subs2, &armed2);
+          }
+        },
+        move |e| l2.lock().unwrap().push((s2.load(Ordering::Relaxed), i, Ev::E(err_code(&e)))),
+        move || l3.lock().unwrap().push((s3.load(Ordering::Relaxed), i, Ev::C)),
+      );
+      subs.lock().unwrap()[i] = Some(s);
+    }
     for (si, c) in h.iter().enumerate() {
       step.store(si, Ordering::Relaxed);
       match c {
-        Call::Sub(i) => {
-          let o = if via_map { sbj.observable().map(|x| x) } else { sbj.observable() };
-          let (l1, l2, l3) = (log.clone(), log.clone(), log.clone());
-          let (s1, s2, s3) = (step.clone(), step.clone(), step.clone());
-          let i = *i;
-          subs[i] = Some(o.subscribe(
-            move |x| l1.lock().unwrap().push((s1.load(Ordering::Relaxed), i, Ev::n(x))),
-            move |e| l2.lock().unwrap().push((s2.load(Ordering::Relaxed), i, Ev::E(err_code(&e)))),
-            move || l3.lock().unwrap().push((s3.load(Ordering::Relaxed), i, Ev::C)),
-          ));
+        Call::Sub(i) => subscribe_obs(*i, &sbj, via_map, &log, &step, &subs, &armed),
+        Call::NextNested(v, outer, inner) => {
+          *armed.lock().unwrap() = Some((*outer, *inner));
+          sbj.next(*v);
+          *armed.lock().unwrap() = None;
         }
         Call::Unsub(i) => {
-          if let Some(s) = &subs[*i] {
+          let s = subs.lock().unwrap()[*i].clone();
+          if let Some(s) = s {
             s.unsubscribe()
           }
         }
